@@ -1,0 +1,9 @@
+//go:build !verif
+// +build !verif
+
+package route
+
+import "gonum.org/v1/gonum/graph"
+
+// simOrderNodes is a no-op unless the package is built with the verif tag.
+func simOrderNodes([]graph.Node) {}
